@@ -9,13 +9,6 @@ import RzilVerif.Model.Checks
 -/
 namespace Rzil
 
-/-- The text produced by the `k`-th read (0-based) of a non-inlined shared node `x`
-    (`GlobalVar.il_read`: `reads < 1` → the variable, else `DUP(variable)`). -/
-def readText (x : String) (k : Nat) : Term := if k < 1 then .id x else .app "DUP" [.id x]
-
-/-- The texts of `n` successive reads. -/
-def readsOf (x : String) (n : Nat) : List Term := (List.range n).map (readText x)
-
 def isRaw (x : String) (t : Term) : Bool := t == .id x
 def isDup (x : String) (t : Term) : Bool := t == .app "DUP" [.id x]
 
